@@ -1,5 +1,6 @@
 import FV.Props.Catalog
 import FV.C05C06
+import FV.WalkAll
 /-! # C06 — framing contract -/
 namespace FV.Props
 open FV
@@ -18,6 +19,19 @@ theorem C06_extension_same (t : Ty) (h : t.WF) (s : Slice) (hv : t.dict.validate
     (hz : t.dict.size s = .ok z) (sfx : Bytes) :
     t.dict.validate ⟨s.addr, s.bytes.take z ++ sfx⟩ = .ok () ∧ t.dict.size ⟨s.addr, s.bytes.take z ++ sfx⟩ = .ok z :=
   FV.C06_extension_same t h s hv z hz sfx
+
+/-- **C06 (extensions, content).** … and decodes to the same content as the message alone. -/
+theorem C06_extension_same_content (t : Ty) (h : t.WF) (s : Slice) (hv : t.dict.validate s = .ok ()) (z : Nat)
+    (hz : t.dict.size s = .ok z) (sfx : Bytes) :
+    (t.dict.walk ⟨s.addr, s.bytes.take z ++ sfx⟩).map Val.strip = (t.dict.walk s).map Val.strip := by
+  obtain ⟨ha, hl, hu⟩ := validate_ok_iff.1 hv
+  obtain ⟨z', hz', hzle, _, _⟩ := (Ty.frameLaw t h).size_ok s ha hl hu
+  have : z' = z := by simp only [Dict.sizeV] at hz'; rw [hz] at hz'; cases hz'; rfl
+  subst this
+  apply walk_loc t.dict (Ty.frameLaw t h) (Ty.walkLaw t h) s z' ha hl hu hz ⟨s.addr, s.bytes.take z' ++ sfx⟩ rfl
+  · simp only [Slice.len, List.length_append, List.length_take] at hzle ⊢; omega
+  · simp only [List.take_append_of_le_length (show z' ≤ (s.bytes.take z').length by
+      simp only [List.length_take, Slice.len] at hzle ⊢; omega), List.take_take, Nat.min_self]
 
 example : FlexS1.WF := FlexS1_wf
 /-- non-vacuity: a FlexVec<S1,u16> with one item -/
